@@ -497,12 +497,22 @@ def partial_match(model: Model, pred: Pred, stdin: bytes, exit_class: str, stdou
     for path in set(M0) | set(after):
         cur = after.get(path)
         if path in alone:
-            if cur != M0[path] and not (alone[path] is not None and cur == alone[path]):
+            ok_now = {M0[path]} | ({alone[path]} if alone[path] is not None else set())
+            ok_orig = {M0[path]}
+            if files.count(path) > 1 and alone[path] is not None:
+                # named twice: the second pass formats (and backs up) the result of the first
+                try:
+                    ok_now.add(model.fmt_file(alone[path], pt["o"]))
+                    ok_orig.add(alone[path])
+                except Exception:  # noqa: BLE001
+                    pass
+            if cur not in ok_now:
                 return False
-            if cur != M0[path] and not pt["nobackup"] and after.get(path + ".orig") != M0[path]:
+            if cur != M0[path] and not pt["nobackup"] and after.get(path + ".orig") not in ok_orig:
                 return False
         elif path.endswith(".orig") and path[: -len(".orig")] in alone:
-            if cur != M0.get(path) and cur != M0[path[: -len(".orig")]]:
+            base = path[: -len(".orig")]
+            if cur != M0.get(path) and cur != M0[base] and not (files.count(base) > 1 and cur == alone[base]):
                 return False
         elif cur != M0.get(path):
             return False
